@@ -31,8 +31,9 @@ type e12Field struct {
 }
 
 type e12Result struct {
-	fields map[*types.Var]*e12Field
-	allocs map[*types.Named][]*ssa.Alloc // creations of the struct in subject functions
+	closedFields map[*types.Var]bool // channel fields that some close(…) takes directly
+	fields       map[*types.Var]*e12Field
+	allocs       map[*types.Named][]*ssa.Alloc // creations of the struct in subject functions
 }
 
 func fieldAddrVar(v ssa.Value) (*types.Var, *types.Named) {
@@ -69,7 +70,7 @@ func (p *Prog) e12() *e12Result {
 	if p.e12c != nil {
 		return p.e12c
 	}
-	r := &e12Result{fields: map[*types.Var]*e12Field{}, allocs: map[*types.Named][]*ssa.Alloc{}}
+	r := &e12Result{fields: map[*types.Var]*e12Field{}, allocs: map[*types.Named][]*ssa.Alloc{}, closedFields: map[*types.Var]bool{}}
 	p.e12c = r
 	get := func(fv *types.Var, n *types.Named) *e12Field {
 		f := r.fields[fv]
@@ -97,6 +98,12 @@ func (p *Prog) e12() *e12Result {
 						if _, ok := n.Underlying().(*types.Struct); ok {
 							r.allocs[n] = append(r.allocs[n], x)
 						}
+					}
+				}
+			case *ssa.Call:
+				if IsBuiltin(&x.Call, "close") && len(x.Call.Args) == 1 {
+					if fv, _, _ := loadedField(x.Call.Args[0]); fv != nil {
+						r.closedFields[fv] = true
 					}
 				}
 			case *ssa.BinOp:
@@ -130,6 +137,8 @@ func nonNilMapValue(v ssa.Value, seen map[ssa.Value]bool) bool {
 	seen[v] = true
 	switch x := v.(type) {
 	case *ssa.MakeMap:
+		return true
+	case *ssa.MakeChan:
 		return true
 	case *ssa.Phi:
 		for _, e := range x.Edges {
@@ -188,10 +197,48 @@ func (p *Prog) allocInitialises(a *ssa.Alloc, fv *types.Var) bool {
 		}
 	}
 	visit(a, 0)
+	reach := blockReach(fn)
+	// ... or a method of the object that makes the field on all its paths is called on it
+	// before anything else can get hold of the object (`n := &survey{…}; …; n.start(…)`, where
+	// start makes the queue and is what publishes the survey)
+	for _, ref := range *a.Referrers() {
+		call, ok := ref.(*ssa.Call)
+		if !ok || call.Call.IsInvoke() || len(call.Call.Args) == 0 || call.Call.Args[0] != ssa.Value(a) {
+			continue
+		}
+		sc := call.Call.StaticCallee()
+		if sc == nil || !methodMakes(sc, fv) {
+			continue
+		}
+		escapesBefore := false
+		for _, r2 := range *a.Referrers() {
+			if r2 == ssa.Instruction(call) {
+				continue
+			}
+			esc := false
+			switch x := r2.(type) {
+			case *ssa.FieldAddr, *ssa.DebugRef:
+			case *ssa.Store:
+				esc = x.Val == ssa.Value(a)
+			default:
+				esc = true
+			}
+			if esc && CanPrecede(reach, r2, call) {
+				escapesBefore = true
+			}
+		}
+		if !escapesBefore {
+			return true
+		}
+	}
 	for _, s := range st {
+		if s.Block() == a.Block() {
+			return true // part of the literal that creates the object
+		}
 		all := true
 		for _, b := range fn.Blocks {
-			if isReturnBlock(b) && !(s.Block() == b || s.Block().Dominates(b)) {
+			// only returns that can follow the creation matter
+			if isReturnBlock(b) && (b == a.Block() || reach[a.Block().Index][b.Index]) && !(s.Block() == b || s.Block().Dominates(b)) {
 				all = false
 			}
 		}
@@ -200,6 +247,50 @@ func (p *Prog) allocInitialises(a *ssa.Alloc, fv *types.Var) bool {
 		}
 	}
 	return false
+}
+
+// methodMakes: m stores a made map / channel into field fv of its receiver on every path to a
+// return.
+func methodMakes(m *ssa.Function, fv *types.Var) bool {
+	if m.Blocks == nil || len(m.Params) == 0 {
+		return false
+	}
+	found := false
+	EachInstr(m, func(in ssa.Instruction) {
+		s, ok := in.(*ssa.Store)
+		if !ok || found {
+			return
+		}
+		fa, ok := s.Addr.(*ssa.FieldAddr)
+		if !ok {
+			return
+		}
+		if v, _ := fieldAddrVar(fa); v != fv || !nonNilMapValue(s.Val, map[ssa.Value]bool{}) {
+			return
+		}
+		// the receiver itself (possibly through the spill of a captured receiver)
+		base := fa.X
+		if u, isLoad := base.(*ssa.UnOp); isLoad && u.Op == token.MUL {
+			if al, isAlloc := u.X.(*ssa.Alloc); isAlloc {
+				if src := allocSource(al); src != nil {
+					base = src
+				}
+			}
+		}
+		if base != ssa.Value(m.Params[0]) {
+			return
+		}
+		all := true
+		for _, b := range m.Blocks {
+			if isReturnBlock(b) && !(s.Block() == b || s.Block().Dominates(b)) {
+				all = false
+			}
+		}
+		if all {
+			found = true
+		}
+	})
+	return found
 }
 
 // ---------------------------------------------------------------------------------
@@ -218,6 +309,14 @@ func (p *Prog) e12Tracked() map[*types.Var]string {
 		if _, isMap := fv.Type().Underlying().(*types.Map); isMap {
 			if ok, _ := p.mapFieldAlwaysMade(f); !ok {
 				out[fv] = "map"
+			}
+			continue
+		}
+		if _, isChan := fv.Type().Underlying().(*types.Chan); isChan {
+			if res.closedFields[fv] {
+				if ok, _ := p.mapFieldAlwaysMade(f); !ok {
+					out[fv] = "map" // same discipline as a map: made, or tested, before the close
+				}
 			}
 			continue
 		}
@@ -1141,12 +1240,42 @@ func (p *Prog) e12MapWrites(r *Report, R string, inScope func(*ssa.Function) boo
 	res := p.e12()
 	fl := p.e12Flow()
 	n := 0
+	nClose := 0
 	per := map[string]int{}
+	defer func() { r.Count("e12a.field_closes."+R, nClose) }()
 	for _, fn := range p.Funcs {
 		if !inScope(fn) {
 			continue
 		}
 		EachInstr(fn, func(in ssa.Instruction) {
+			if c, isCall := in.(*ssa.Call); isCall && IsBuiltin(&c.Call, "close") && len(c.Call.Args) == 1 {
+				fv, owner, _ := loadedField(c.Call.Args[0])
+				if fv == nil || owner == nil || owner.Obj().Pkg() == nil {
+					return
+				}
+				if _, inMod := Rel(owner.Obj().Pkg().Path()); !inMod {
+					return
+				}
+				nClose++
+				f := res.fields[fv]
+				key := p.FuncName(fn) + "/close(" + fv.Name() + ")"
+				per[key]++
+				if per[key] > 1 {
+					key = fmt.Sprintf("%s#%d", key, per[key])
+				}
+				if f == nil {
+					r.Bad(R, key, p.InstrPos(in), "close of the channel "+fieldKey(fv, owner)+", which nothing in the module makes: closing a nil channel panics")
+					return
+				}
+				if ok2, why := p.mapFieldAlwaysMade(f); ok2 {
+					r.OK(R, key, p.InstrPos(in), why)
+				} else if facts := fl.factsBefore(in); facts == nil || facts[pathOfLoad(c.Call.Args[0])] {
+					r.OK(R, key, p.InstrPos(in), "made or tested on every path to the close (not always made: "+why+")")
+				} else {
+					r.Bad(R, key, p.InstrPos(in), "close of the channel "+fieldKey(fv, owner)+", which can be nil here: "+why+", and neither a test nor a make of "+pathOfLoad(c.Call.Args[0])+" lies on every path to the close: closing a nil channel panics")
+				}
+				return
+			}
 			mu, ok := in.(*ssa.MapUpdate)
 			if !ok {
 				return
